@@ -236,5 +236,34 @@ int main(int argc, char** argv)
     prop.id = "C10";
     prop.gen = genCase;
     prop.run = runCase;
+    // coverage-guided mode: histories of up to 6 calls normalised like the generator's, a non-empty final batch, bounded bulk prefix
+    prop.normalize = [](HistCase& c) {
+        EncNormParams np;
+        np.allowEmptyBatch = true;
+        np.allowErrorFlag = true;
+        np.allowEmptyPayload = true;
+        np.allowMsgType0 = true;
+        np.maxBatch = 8;
+        np.frameBudget = 4000;
+        if (c.history.size() > 6)
+            c.history.resize(6);
+        if (c.bulkFrames > 131072)
+            c.bulkFrames = 65500 + c.bulkFrames % 65573;
+        if (c.bulkFrames && c.history.size() > 1)
+            c.history.resize(1);
+        for (auto& h : c.history)
+        {
+            normalizeEncCase(h, np);
+            h.prior.clear();
+            if (h.packets.empty())
+                h.abortAfter = -1;
+        }
+        np.allowEmptyBatch = false;
+        normalizeEncCase(c.last, np);
+        c.last.prior.clear();
+        c.last.abortAfter = -1;
+        c.reuseObjects = c.reuseObjects ? 1 : 0;
+        c.idMode = static_cast<uint8_t>(c.idMode % 4);
+    };
     return pbtMain(argc, argv, prop);
 }
